@@ -84,3 +84,215 @@ Proof.
     rewrite Hgo. reflexivity.
   - discriminate.
 Qed.
+
+(* ---------- the main theorem: a document built from claims j and a set of tagged nodes ---------- *)
+Section Tagged.
+Variable marked : list string -> bool.     (* which nodes carry the !sd tag, by path segments *)
+
+(* the value tree of the YAML document: tags on mapping keys anywhere, on sequence items that are strings *)
+Fixpoint ytree (path : list string) (j : json) : yaml :=
+  match j with
+  | JNull => YNull | JBool b => YBool b | JNum l => YNum l | JStr s => YStr s
+  | JArr xs => YSeq ((fix go (i : nat) (l : list json) : list yaml :=
+        match l with
+        | [] => []
+        | x :: r =>
+            (match x with
+             | JStr s => if marked (path ++ [show_nat i]) then YTag sd_tag (YStr s) else YStr s
+             | _ => ytree (path ++ [show_nat i]) x end) :: go (S i) r
+        end) 0 xs)
+  | JObj kvs => YMap ((fix go (l : list (string * json)) : list (yaml * yaml) :=
+        match l with
+        | [] => []
+        | (k, v) :: r => ((if marked (path ++ [k]) then YTag sd_tag (YStr k) else YStr k), ytree (path ++ [k]) v) :: go r
+        end) kvs)
+  end.
+
+(* the same document without any tag *)
+Fixpoint yplain (j : json) : yaml :=
+  match j with
+  | JNull => YNull | JBool b => YBool b | JNum l => YNum l | JStr s => YStr s
+  | JArr xs => YSeq (map yplain xs)
+  | JObj kvs => YMap (map (fun kv => let '(k, v) := kv in (YStr k, yplain v)) kvs)
+  end.
+
+(* the JSON pointers of the tagged nodes, nested ones before the node that encloses them *)
+Fixpoint epaths (path : list string) (j : json) : list string :=
+  match j with
+  | JArr xs => (fix go (i : nat) (l : list json) : list string :=
+        match l with
+        | [] => []
+        | x :: r =>
+            ((match x with
+              | JStr _ => if marked (path ++ [show_nat i]) then [render_segs (path ++ [show_nat i])] else []
+              | _ => epaths (path ++ [show_nat i]) x end) ++ go (S i) r)%list
+        end) 0 xs
+  | JObj kvs => (fix go (l : list (string * json)) : list string :=
+        match l with
+        | [] => []
+        | (k, v) :: r =>
+            ((epaths (path ++ [k]) v ++ (if marked (path ++ [k]) then [render_segs (path ++ [k])] else [])) ++ go r)%list
+        end) kvs
+  | _ => [] end.
+
+Theorem collect_ytree : forall j path, collect path (ytree path j) = Ok (yplain j, epaths path j).
+Proof.
+  induction j as [| b | l | s | xs IH | kvs IH] using json_ind'; intros path; try reflexivity.
+  - (* sequences *)
+    cbn [ytree collect yplain epaths].
+    set (goy := fix go (i : nat) (l : list json) : list yaml :=
+            match l with
+            | [] => []
+            | x :: r => (match x with
+                         | JStr s => if marked (path ++ [show_nat i]) then YTag sd_tag (YStr s) else YStr s
+                         | _ => ytree (path ++ [show_nat i]) x end) :: go (S i) r
+            end).
+    set (goe := fix go (i : nat) (l : list json) : list string :=
+               match l with
+               | [] => []
+               | x :: r => ((match x with
+                             | JStr _ => if marked (path ++ [show_nat i]) then [render_segs (path ++ [show_nat i])] else []
+                             | _ => epaths (path ++ [show_nat i]) x end) ++ go (S i) r)%list
+               end).
+    set (loop := fix go (i : nat) (l : list yaml) : res (list yaml * list string) :=
+         match l with
+         | [] => Ok ([], [])
+         | x :: rest =>
+             do (x', ps) <- collect (path ++ [show_nat i]) x;
+             do x'' <- match x' with
+                       | YTag t inner => if String.eqb t sd_tag then match inner with YStr s => Ok (YStr s) | _ => Err end else Ok x'
+                       | _ => Ok x' end;
+             do (rest', ps') <- go (S i) rest;
+             Ok (x'' :: rest', (ps ++ ps')%list)
+         end).
+    assert (Hgo : forall i, loop i (goy i xs) = Ok (map yplain xs, goe i xs)).
+    { induction IH as [|x r Hx _ IHr]; intros i; [reflexivity|].
+      change (goy i (x :: r)) with ((match x with
+                         | JStr s => if marked (path ++ [show_nat i]) then YTag sd_tag (YStr s) else YStr s
+                         | _ => ytree (path ++ [show_nat i]) x end) :: goy (S i) r).
+      change (goe i (x :: r)) with ((match x with
+                             | JStr _ => if marked (path ++ [show_nat i]) then [render_segs (path ++ [show_nat i])] else []
+                             | _ => epaths (path ++ [show_nat i]) x end) ++ goe (S i) r)%list.
+      match goal with |- loop i (?y :: ?ys) = _ =>
+        change (loop i (y :: ys)) with
+          (do (x', ps) <- collect (path ++ [show_nat i]) y;
+           do x'' <- match x' with
+                     | YTag t inner => if String.eqb t sd_tag then match inner with YStr s => Ok (YStr s) | _ => Err end else Ok x'
+                     | _ => Ok x' end;
+           do (rest', ps') <- loop (S i) ys;
+           Ok (x'' :: rest', (ps ++ ps')%list)) end.
+      rewrite (IHr (S i)). cbn [map].
+      destruct x as [| b | l | s | ys | kvs0].
+      + reflexivity.
+      + reflexivity.
+      + reflexivity.
+      + destruct (marked (path ++ [show_nat i])); reflexivity.
+      + rewrite (Hx (path ++ [show_nat i])%list). reflexivity.
+      + rewrite (Hx (path ++ [show_nat i])%list). reflexivity. }
+    rewrite Hgo. reflexivity.
+  - (* mappings *)
+    cbn [ytree collect yplain epaths].
+    set (goy := fix go (l : list (string * json)) : list (yaml * yaml) :=
+            match l with
+            | [] => []
+            | (k, v) :: r => ((if marked (path ++ [k]) then YTag sd_tag (YStr k) else YStr k), ytree (path ++ [k]) v) :: go r
+            end).
+    set (goe := fix go (l : list (string * json)) : list string :=
+               match l with
+               | [] => []
+               | (k, v) :: r => ((epaths (path ++ [k]) v ++ (if marked (path ++ [k]) then [render_segs (path ++ [k])] else [])) ++ go r)%list
+               end).
+    set (loop := fix go (l : list (yaml * yaml)) : res (list (yaml * yaml) * list string) :=
+         match l with
+         | [] => Ok ([], [])
+         | (k, v) :: rest =>
+             match k with
+             | YTag t kv =>
+                 if String.eqb t sd_tag then
+                   match kv with
+                   | YStr ks =>
+                       do (v', ps) <- collect (path ++ [ks]) v;
+                       do (rest', ps') <- go rest;
+                       Ok ((YStr ks, v') :: rest', (ps ++ [render_segs (path ++ [ks])] ++ ps')%list)
+                   | _ => Err end
+                 else do (rest', ps') <- go rest; Ok ((k, v) :: rest', ps')
+             | YStr ks =>
+                 do (v', ps) <- collect (path ++ [ks]) v;
+                 do (rest', ps') <- go rest;
+                 Ok ((k, v') :: rest', (ps ++ ps')%list)
+             | _ => do (rest', ps') <- go rest; Ok ((k, v) :: rest', ps')
+             end
+         end).
+    assert (Hgo : loop (goy kvs) = Ok (map (fun kv : string * json => let '(k, v) := kv in (YStr k, yplain v)) kvs, goe kvs)).
+    { induction IH as [|[k v] r Hv _ IHr]; [reflexivity|]. cbn [snd] in Hv.
+      change (goy ((k, v) :: r)) with (((if marked (path ++ [k]) then YTag sd_tag (YStr k) else YStr k), ytree (path ++ [k]) v) :: goy r).
+      change (goe ((k, v) :: r)) with ((epaths (path ++ [k]) v ++ (if marked (path ++ [k]) then [render_segs (path ++ [k])] else [])) ++ goe r)%list.
+      cbn [map].
+      destruct (marked (path ++ [k])).
+      - change (loop ((YTag sd_tag (YStr k), ytree (path ++ [k]) v) :: goy r)) with
+          (if String.eqb sd_tag sd_tag then
+             do (v', ps) <- collect (path ++ [k]) (ytree (path ++ [k]) v);
+             do (rest', ps') <- loop (goy r);
+             Ok ((YStr k, v') :: rest', (ps ++ [render_segs (path ++ [k])] ++ ps')%list)
+           else do (rest', ps') <- loop (goy r); Ok ((YTag sd_tag (YStr k), ytree (path ++ [k]) v) :: rest', ps')).
+        rewrite String.eqb_refl, (Hv (path ++ [k])%list), IHr. cbn [bind]. rewrite <- !app_assoc. reflexivity.
+      - change (loop ((YStr k, ytree (path ++ [k]) v) :: goy r)) with
+          (do (v', ps) <- collect (path ++ [k]) (ytree (path ++ [k]) v);
+           do (rest', ps') <- loop (goy r);
+           Ok ((YStr k, v') :: rest', (ps ++ ps')%list)).
+        rewrite (Hv (path ++ [k])%list), IHr. cbn [bind]. rewrite app_nil_r. reflexivity. }
+    rewrite Hgo. reflexivity.
+Qed.
+End Tagged.
+
+(* converting the untagged tree gives back the claims (objects with strictly sorted keys) *)
+Require Import SDJ.T2b SDJ.T1e.
+From Coq Require Import Sorting.Sorted.
+
+Lemma obj_insert_last k v (kvs : list (string * json)) :
+  Forall (fun kv => slt (fst kv) k) kvs -> obj_insert k v kvs = (kvs ++ [(k, v)])%list.
+Proof.
+  induction kvs as [|[k' v'] r IH]; intros HF; [reflexivity|]. inversion HF as [|? ? Hlt Hr]; subst. cbn [fst] in Hlt.
+  cbn [obj_insert]. rewrite (slt_gt _ _ Hlt). rewrite IH by assumption. reflexivity.
+Qed.
+
+Lemma fold_insert_sorted : forall (l acc : list (string * json)),
+  StronglySorted slt (map fst (acc ++ l)) ->
+  fold_left (fun a kv => obj_insert (fst kv) (snd kv) a) l acc = (acc ++ l)%list.
+Proof.
+  induction l as [|[k v] r IH]; intros acc Hs; [rewrite app_nil_r; reflexivity|].
+  cbn [fold_left fst snd]. rewrite obj_insert_last.
+  - rewrite IH.
+    + rewrite <- app_assoc. reflexivity.
+    + rewrite <- app_assoc. exact Hs.
+  - rewrite map_app in Hs. cbn [map fst] in Hs. apply ssorted_split in Hs as [Hlt _].
+    apply Forall_forall. intros kv Hkv. rewrite Forall_forall in Hlt. apply (Hlt (fst kv)). apply (in_map fst). exact Hkv.
+Qed.
+
+Theorem to_json_yplain : forall j, jwf j -> to_json (yplain j) = Ok j.
+Proof.
+  induction j as [| b | l | s | xs IH | kvs IH] using json_ind'; intros Hw; try reflexivity.
+  - inversion Hw as [| | | | ? Hall |]; subst. cbn [yplain to_json].
+    assert (Hgo : (fix go (l : list yaml) : res (list json) :=
+                     match l with [] => Ok [] | x :: r => do j <- to_json x; do r' <- go r; Ok (j :: r') end) (map yplain xs) = Ok xs).
+    { clear Hw. induction IH as [|x r Hx _ IHr]; [reflexivity|]. inversion Hall as [|? ? Hjx Hjr]; subst. cbn [map]. rewrite (Hx Hjx). cbn [bind].
+      rewrite (IHr Hjr). reflexivity. }
+    rewrite Hgo. reflexivity.
+  - inversion Hw as [| | | | | ? Hs Hall]; subst. cbn [yplain to_json].
+    assert (Hgo : (fix go (l : list (yaml * yaml)) : res (list (string * json)) :=
+                     match l with
+                     | [] => Ok []
+                     | (YStr k, v) :: r => do j <- to_json v; do r' <- go r; Ok ((k, j) :: r')
+                     | _ :: _ => Err end) (map (fun kv : string * json => let '(k, v) := kv in (YStr k, yplain v)) kvs) = Ok kvs).
+    { clear Hs Hw. induction IH as [|[k v] r Hv _ IHr]; [reflexivity|]. inversion Hall as [|? ? H1 H2]; subst. cbn [snd fst] in *.
+      cbn [map]. rewrite Hv by tauto. cbn [bind]. rewrite (IHr H2). reflexivity. }
+    rewrite Hgo. cbn [bind]. rewrite (fold_insert_sorted kvs []); [reflexivity|exact Hs].
+Qed.
+
+(* parse_yaml on the tree of a document built from well-formed claims and any set of tags: the claims come
+   back, and the paths are exactly the tagged nodes, nested ones first *)
+Theorem parse_yaml_tagged marked j : jwf j ->
+  parse_yaml_tree (ytree marked [] j) = Ok (j, epaths marked [] j).
+Proof.
+  intros Hw. unfold parse_yaml_tree. rewrite collect_ytree. cbn [bind]. rewrite to_json_yplain by assumption. reflexivity.
+Qed.
